@@ -8,7 +8,7 @@
    iter_index t it = number of items before position it (= distance from begin).
    All statements hold for every 1 <= maxCapacity <= 255, every capacityStep, blockCount, search strategy. *)
 From Coq Require Import ZArith List.
-From C02 Require Import BTreeModel BTreeParams BTreeBase SplitSeg BTreeSearch BTreeIter BTreeAdd BTreeRemove BTreeCtx BTreeRemove2 BTreeTrack BTreeRemove3 BTreeRange BTreeTop BTreeHist BTreeRemoveTop BTreeRangeTop BTreeHist2 BTreeMerge BTreeFast BTreeFast2.
+From C02 Require Import BTreeModel BTreeParams BTreeBase SplitSeg IndexTable BTreeSearch BTreeIter BTreeAdd BTreeRemove BTreeCtx BTreeRemove2 BTreeTrack BTreeRemove3 BTreeRange BTreeTop BTreeHist BTreeRemoveTop BTreeRangeTop BTreeHist2 BTreeMerge BTreeFast BTreeFast2 BTreeInsRange BTreeHist3.
 Import ListNotations.
 Local Open Scope Z_scope.
 
@@ -87,6 +87,20 @@ Theorem C02_split_segments_are_insert_then_cut :
       ((firstn s' ks', firstn (S s') cs'), nth s' ks' 0, (skipn (S s') ks', skipn (S s') cs')).
 Proof. exact split_parts_cut. Qed.
 Print Assumptions C02_split_segments_are_insert_then_cut.
+
+(* indexed layout (isContinuous = false) of details/TreeNode.h, abstraction lemma for insertion into a node: items live in
+   raw slots and the node keeps a permutation table; constructing the new item in slot indexes[count] and then
+   pvAcceptBackItem(index) (copy_backward on the table) leaves the table a permutation of the slot numbers and makes the
+   LOGICAL item sequence (slot indexes[0], indexes[1], ...) exactly insert_at index x of the old one - which is what
+   the abstract model (items as a list) does.  (Removal permutes the table symmetrically; modelled as remove_idx, not
+   proved; the harness checks on the real indexed nodes that the table is a permutation.) *)
+Theorem C02_indexed_node_accept_is_insert_at :
+  forall (n : inode) (x : Z) (index : nat),
+    winv n -> (index <= icount n)%nat -> (icount n < length (idx n))%nat ->
+    let n' := accept_back (write_back n x) index in
+    winv n' /\ logical n' = insert_at index x (logical n).
+Proof. exact accept_back_refines. Qed.
+Print Assumptions C02_indexed_node_accept_is_insert_at.
 
 (* pvAdd(iter, x) for ANY valid position (hinted Add): WF is preserved through in-leaf insertion, pvAddGrow and the
    whole pvAddSplit cascade; the sequence becomes (items before iter) ++ x :: (items from iter on); the returned
@@ -375,17 +389,35 @@ Theorem C02_history_two_containers_refines :
 Proof. exact history3_refines. Qed.
 Print Assumptions C02_history_two_containers_refines.
 
-(* lifted over ALL finite histories over the alphabet Insert / hinted Add (right hint: Add at that position, wrong
-   hint: Insert) / Remove(iterator at index h) / Remove(begin,end) / Remove(key) / ResetKey (when it keeps the order) / Clear, from the
-   empty container (Extract+Insert is the two-op sequence Remove(iterator); Insert): the state is WF, sorted
+(* Insert(begin, end) (also Insert(initializer_list) and, through it, the stdish range constructors / insert(range)):
+   the first item is inserted normally; each further item is ADDED right after the previous position when the input
+   stays ordered there (key not less than the previous key and less than the item after it; for unique keys also
+   strictly greater than the previous key), is skipped when it duplicates the previous key of a unique container,
+   and falls back to a normal Insert otherwise.  Whatever the order of the input, the result is the same as inserting
+   the items one after the other (so it is stable for multi keys and refuses duplicates for unique keys). *)
+Theorem C02_insert_range_refines :
+  forall (maxCap stepRaw blockCount : nat) (linear multi : bool), (1 <= maxCap <= 255)%nat ->
+  forall (t : tree) (ks : list Z), twf maxCap t -> sorted multi (contents t) ->
+    twf maxCap (insert_range maxCap stepRaw blockCount linear multi t ks) /\
+    sorted multi (contents (insert_range maxCap stepRaw blockCount linear multi t ks)) /\
+    contents (insert_range maxCap stepRaw blockCount linear multi t ks) = spec_insert_list multi (contents t) ks /\
+    cnt (insert_range maxCap stepRaw blockCount linear multi t ks) =
+      length (contents (insert_range maxCap stepRaw blockCount linear multi t ks)).
+Proof. exact insert_range_refines. Qed.
+Print Assumptions C02_insert_range_refines.
+
+(* lifted over ALL finite histories over the full single-container alphabet: Insert / hinted Add (right hint: Add at
+   that position, wrong hint: Insert) / Insert(begin,end) / Remove(iterator at index h) / Remove(begin,end) /
+   Remove(key) for unique keys and for multi keys (the whole equal range) / ResetKey (when it keeps the order) / Clear,
+   from the empty container (Extract+Insert is the two-op sequence Remove(iterator); Insert): the state is WF, sorted
    (non-decreasing / strictly increasing), mCount is exact, and the sequence equals the list-level reference. *)
 Theorem C02_history_refines :
   forall (maxCap stepRaw blockCount : nat) (linear multi : bool), (1 <= maxCap <= 255)%nat ->
-  forall ops : list BTreeHist2.op,
-    let t := fold_left (BTreeHist2.step maxCap stepRaw blockCount linear multi) ops empty_tree in
-    twf maxCap t /\ sorted multi (contents t) /\ contents t = fold_left (BTreeHist2.spec_step multi) ops [] /\
+  forall ops : list opf,
+    let t := fold_left (stepf maxCap stepRaw blockCount linear multi) ops empty_tree in
+    twf maxCap t /\ sorted multi (contents t) /\ contents t = fold_left (spec_stepf multi) ops [] /\
     cnt t = length (contents t).
-Proof. exact BTreeHist2.history_refines. Qed.
+Proof. exact historyf_refines. Qed.
 Print Assumptions C02_history_refines.
 
 (* the list-level specification itself keeps the order *)
